@@ -240,7 +240,8 @@ pub fn item_inputs(f: &F) -> Vec<(String, Kind)> {
     let budgets: [Option<Vec<f64>>; 3] = [None, Some(vec![]), Some(vec![0.5, 0.25])];
     let puncts: [Option<P>; 5] = [None, Some(P::Judgement), Some(P::Goal), Some(P::Question), Some(P::Quest)];
     let stamps = [St::Eternal, St::Present, St::Fixed(-3)];
-    let truths: [Vec<f64>; 3] = [vec![], vec![1.0], vec![1.0, 0.9]];
+    // None = no truth written at all; Some([]) = the truth brackets written with nothing between them
+    let truths: [Option<Vec<f64>>; 4] = [None, Some(vec![]), Some(vec![1.0]), Some(vec![1.0, 0.9])];
     for term in &terms {
         for b in &budgets {
             for p in &puncts {
@@ -255,7 +256,7 @@ pub fn item_inputs(f: &F) -> Vec<(String, Kind)> {
                             toks.push(emit::punct(f, *p).to_string());
                         }
                         emit::stamp(f, *st, &mut toks);
-                        if !tr.is_empty() {
+                        if let Some(tr) = tr {
                             emit::floats(s.truth_brackets.0, s.truth_separator, s.truth_brackets.1, tr, &mut toks);
                         }
                         let kind = match (b, p) {
